@@ -1,6 +1,7 @@
 package main
 
 import (
+	"os"
 	"fmt"
 	"go/token"
 	"go/types"
@@ -330,7 +331,7 @@ func (z *zfn) termD(v ssa.Value, d int) lin {
 							goal.c -= int64(1)<<uint(tb-1) - 1
 						}
 					}
-					keep := entails(z.factsAt(x), goal)
+					keep, _ := z.prove(x, []lin{goal}) // (with the case split over phis: the operand is often a clamped join)
 					z.convBusy[x] = false
 					z.convExact[x] = keep
 					if keep {
@@ -1997,6 +1998,9 @@ func (z *zfn) provePhi(at ssa.Instruction, g lin, depth int, extra []lin) bool {
 				}
 			}
 			if !entails(facts, ng) && !z.provePhi(last, ng, depth+1, carry) {
+				if os.Getenv("ZTRACE") != "" {
+					fmt.Fprintf(os.Stderr, "ZTRACE depth=%d phi=%s edge=%d val=%s goal=%s FAILED\n", depth, phi.Name(), i, e.Name(), ng.String())
+				}
 				all = false
 				break
 			}
@@ -2120,6 +2124,31 @@ func (z *zfn) edgeExcluded(phi *ssa.Phi, i int, at ssa.Instruction) bool {
 					truth, have = true, true
 				} else if (f == cur || f.Dominates(cur)) && edgeOnly(id, f) {
 					truth, have = false, true
+				}
+			}
+			// the phi itself compared with a constant, and a constant on this edge: the comparison is decided
+			if bo, ok := iff.Cond.(*ssa.BinOp); have && ok && stripConv(bo.X) == ssa.Value(phi) {
+				if kc, ok1 := constInt(bo.Y); ok1 {
+					if ke, ok2 := constInt(phi.Edges[i]); ok2 {
+						var holds, known bool
+						switch bo.Op {
+						case token.EQL:
+							holds, known = ke == kc, true
+						case token.NEQ:
+							holds, known = ke != kc, true
+						case token.LSS:
+							holds, known = ke < kc, true
+						case token.LEQ:
+							holds, known = ke <= kc, true
+						case token.GTR:
+							holds, known = ke > kc, true
+						case token.GEQ:
+							holds, known = ke >= kc, true
+						}
+						if known && holds != truth {
+							return true
+						}
+					}
 				}
 			}
 			if bo, ok := iff.Cond.(*ssa.BinOp); have && ok && (bo.Op == token.EQL || bo.Op == token.NEQ) {
